@@ -108,8 +108,29 @@ pub fn gen_password(r: &mut Rng, r6: bool) -> String {
                let pool = ['é', 'ü', 'ß', 'Ø', 'ñ', 'a', 'Z', '7']; let n = 1 + r.usize(10); (0..n).map(|_| *r.pick(&pool)).collect() }
         8 => if r6 { let pool = ['п', 'а', 'р', 'о', 'л', 'ь', '密', '码', 'x']; let n = 1 + r.usize(10); (0..n).map(|_| *r.pick(&pool)).collect() }
              else { r.pick(&PASSWORDS_ASCII).to_string() },
-        _ => { let n = match r.below(4) { 0 => 127, 1 => 128, _ => 100 + r.usize(100) }; (0..n).map(|_| (b'A' + r.below(26) as u8) as char).collect() }   // around and beyond 127 bytes
+        _ => if r6 && r.chance(1, 2) { let w = 2 + r.usize(3); let ph = r.usize(w - 1); let total = 120 + r.usize(21); straddle_password(r, w, ph, total) }   // a multi-byte character across byte 127
+             else { let n = match r.below(4) { 0 => 127, 1 => 128, _ => 100 + r.usize(100) }; (0..n).map(|_| (b'A' + r.below(26) as u8) as char).collect() }   // around and beyond 127 bytes
     }
+}
+
+/// an R5/R6 password (SASLprep-stable characters) of at least `total` UTF-8 bytes in which a character of
+/// `w` bytes (2, 3 or 4) starts at byte 128 - w + phase (phase in 0..w-1), i.e. straddles the 127-byte cut
+pub fn straddle_password(r: &mut Rng, w: usize, phase: usize, total: usize) -> String {
+    let start = 128 - w + phase;                      // 126 | 125,126 | 124,125,126
+    let wide: char = match w { 2 => *r.pick(&['é', 'п', 'ß']), 3 => *r.pick(&['密', '€', '码']), _ => *r.pick(&['\u{1D11E}', '\u{20000}']) };
+    let mut s = String::new();
+    // the prefix: ASCII, or with other multi-byte characters in front so that the earlier boundaries vary too
+    let mixed = r.chance(1, 2);
+    while s.len() < start {
+        let left = start - s.len();
+        if mixed && left >= 3 && r.chance(1, 3) { s.push(*r.pick(&['ü', 'Ж', '水'])); } else { s.push((b'a' + r.below(26) as u8) as char); }
+        if s.len() > start { s.pop(); }
+    }
+    while s.len() < start { s.push('x'); }
+    debug_assert_eq!(s.len(), start);
+    s.push(wide);
+    while s.len() < total.max(start + w) { if r.chance(1, 4) { s.push(*r.pick(&['é', '密'])); } else { s.push((b'A' + r.below(26) as u8) as char); } }
+    s
 }
 
 pub fn gen_config(r: &mut Rng, forced: Option<Ver>) -> Config {
